@@ -172,9 +172,22 @@ func TestProp_KeyCases(t *testing.T) {
 		kind, msg := genMessage(t)
 		withPrev := rapid.Bool().Draw(t, "withPrev")
 		s := newSetup(withPrev)
-		sameID := withPrev && rapid.Bool().Draw(t, "previousKeySharesKeyId")
+		// which ingredients the previous generation shares with the current one: the
+		// certificate key (hence the key ID), the node's encryption pair, the server's
+		// encryption pair - any subset but all three (a rotation may regenerate only some)
+		shares := 0
+		if withPrev && rapid.Bool().Draw(t, "previousSharesSomething") {
+			shares = rapid.IntRange(1, 6).Draw(t, "previousShares")
+		}
+		sameID := shares&1 != 0
 		if sameID {
 			s.sameKeyID()
+		}
+		if shares&2 != 0 {
+			s.oldNode = s.node
+		}
+		if shares&4 != 0 {
+			s.oldSrv = s.server
 		}
 		idField := rapid.SampledFrom([]string{"empty", "key-id", "key-id", "application-chosen", "key-id-of-another-record"}).Draw(t, "serverRecordIdField")
 		otherKeyID, _ := nodeenrollment.KeyIdFromPkix(newCertPkix())
@@ -228,10 +241,10 @@ func TestProp_KeyCases(t *testing.T) {
 		}
 		desc := func(variant string) func() any {
 			return func() any {
-				return map[string]any{"message": kind, "sender_is_node": fromNode, "receiver_has_previous": withPrev, "previous_shares_key_id": sameID, "sender_uses_previous_pair": useOld, "receiver_variant": variant, "ciphertext_len": len(ct), "server_record_id_field": idField}
+				return map[string]any{"message": kind, "sender_is_node": fromNode, "receiver_has_previous": withPrev, "previous_shares_key_id": sameID, "previous_shares_node_pair": shares&2 != 0, "previous_shares_server_pair": shares&4 != 0, "sender_uses_previous_pair": useOld, "receiver_variant": variant, "ciphertext_len": len(ct), "server_record_id_field": idField}
 			}
 		}
-		shape := fmt.Sprintf("%s|%v|%v|%v|%v", kind, fromNode, withPrev, useOld, sameID)
+		shape := fmt.Sprintf("%s|%v|%v|%v|%d", kind, fromNode, withPrev, useOld, shares)
 
 		// 1. matching receiver: exact round trip
 		got, derr, panicked := decrypt(t, ct, receiver, msg, "matching receiver", desc("matching")())
